@@ -335,6 +335,21 @@ pub fn case(t: &mut Tape, scratch: &Scratch) -> CaseResult {
     std::fs::write(dir.join("Cargo.toml"), &man).map_err(|e| fail("harness-io", json!({"e": e.to_string()})))?;
     let mut missing: Option<String> = None;
     let mut needed: Vec<String> = vec![];
+    if meaning.is_none() {
+        // a configuration that must be rejected still gets every file it could possibly ask for, so
+        // that the configuration itself is the only possible reason for the rejection
+        let ldir = dir.join(c.locales_dir.clone().unwrap_or_else(|| "locales".to_string()));
+        let mut locs: Vec<String> = c.locales.clone().unwrap_or_default();
+        locs.extend(c.default.clone());
+        locs.extend(LOCS.iter().map(|s| s.to_string()));
+        for l in &locs {
+            let _ = std::fs::create_dir_all(ldir.join(l));
+            let _ = std::fs::write(ldir.join(format!("{l}.json")), "{\"k\": \"v\"}");
+            for n in NSS {
+                let _ = std::fs::write(ldir.join(l).join(format!("{n}.json")), "{\"k\": \"v\"}");
+            }
+        }
+    }
     if let Some(m) = &meaning {
         let ldir = dir.join(&m.locales_dir);
         let _ = std::fs::create_dir_all(&ldir);
